@@ -450,6 +450,24 @@ def _run_case(case, obs):
 
         # ---- rotate -------------------------------------------------------------------
         rot = zoo.make(rot_name, n_modes=k, power=power, rtol=case["rtol"], compute=case["compute"])
+        if case["dseed"] % 3 == 0:
+            # hostile history: the rotator object has been used before (fitted on another model of the same kind);
+            # everything asserted below must hold for the RE-fitted rotator as well
+            try:
+                prev = zoo.make(base_name, **kw)
+                pert = [d + 0.35 * d.isel(time=slice(None, None, -1)).values for d in data]
+                if fam == "single":
+                    prev.fit(pert[0], dim="time")
+                else:
+                    prev.fit(pert[0], pert[1], dim="time")
+                rot.fit(prev)
+                if not case["compute"]:
+                    rot.compute()
+                obs.cell("rotator_reused")
+            except (RuntimeError, ValueError):
+                rot = zoo.make(rot_name, n_modes=k, power=power, rtol=case["rtol"], compute=case["compute"])
+            del CAP[:]
+            mon.reset()
         try:
             rot.fit(base)
         except RuntimeError as e:
